@@ -4,6 +4,7 @@ import json
 from .. import modelrun
 from .. import worldsim as ws
 from .. import c17kill
+from .. import c17fault
 
 PHONES = ["1000001", "1000002", "1000003"]
 
@@ -72,6 +73,13 @@ def run_history(ctx, case):
                 killer.age = 0
                 if not killer.arm():
                     killer = None
+            elif op[0] == "fault":          # read_fault(account op[1], k = op[2], n = op[3]) during the next op
+                if killer is not None:
+                    killer.disarm()
+                killer = c17fault.ReadFault(w, w.accounts[op[1]], op[2], op[3])
+                killer.age = 0
+                if not killer.arm():
+                    killer = None
             elif op[0] == "send":
                 mid += 1
                 body = "body-%d-%s" % (mid, op[3] if len(op) > 3 else "x")
@@ -107,7 +115,7 @@ def run_history(ctx, case):
                     used = w.drain()
                 sched_out.append(used)
             elif (op[0] == "send" and len(op) > 4 and op[4] == "hold") or (op[0] == "notify" and "hold" in op[3:]) \
-                    or op[0] == "kill":
+                    or op[0] in ("kill", "fault"):
                 sched_out.append([])        # burst: leave the stanzas queued until the next op
             else:
                 sched_out.append(w.drain(lambda m: rng.randrange(m) if case.get("reorder") else 0))
@@ -165,7 +173,13 @@ def abstract_account(rec, idx, bodies):
             if x is None:
                 cur = None
                 continue
-            if ev.get("killed") is not None:
+            if ev.get("aborted"):
+                if x[0] in (0, 1, 2):
+                    x = [8, x]                          # aborted: the identities table could not be read
+                    tag = "read-fault"
+                else:
+                    problems.append("aborted inside an input of kind %r" % (x[0],))
+            elif ev.get("killed") is not None:
                 if x[0] in (0, 1, 2):
                     x = [7, int(ev["killed"]), x]      # killed while handling x, after that many commits
                     tag = "kill"
@@ -326,7 +340,7 @@ def oracle(case, rec, bodies):
                             # the per-jid error is due when the keys were fetched for a message to send (application
                             # send, retry receipt); a fetch made for a notification or for a parked incoming message
                             # reports to nobody, an answer to a request of an earlier process is ignored
-                            due = asked_by.get(ev["iq"]) in ("send", "receipt")
+                            due = asked_by.get(ev["iq"]) in ("send", "receipt") and not ev.get("aborted")
                             if msg_out or (due and not errs):
                                 bad.append(("bundle_not_refused", "account %d: bundle of %d with identity %d "
                                             "(pinned %d): %d message stanza(s) sent, %d error(s) reported" %
@@ -336,7 +350,7 @@ def oracle(case, rec, bodies):
                                 bad.append(("bundle_not_refused", "account %d: bundle of %d with identity %d "
                                             "(pinned %d): a session was built for it" %
                                             (idx, u["jid"], u["ident"], old)))
-                        elif after is not None and after.get(u["jid"]) != u["ident"]:
+                        elif after is not None and after.get(u["jid"]) != u["ident"] and not ev.get("aborted"):
                             bad.append(("autotrust_did_not_replace", "account %d: bundle of %d" % (idx, u["jid"])))
             if ev["tag"] == "message" and not killed and ev["encs"] and ev["encs"][0].get("kind") == "pkmsg":
                 t = ev["encs"][0]
@@ -347,7 +361,7 @@ def oracle(case, rec, bodies):
                             bad.append(("first_message_not_ignored", "account %d: pkmsg from %d with identity %d "
                                         "(pinned %d) produced %r" % (idx, ev["peer"], t["pident"], old,
                                                                      [o["tag"] for o in outs])))
-                    elif not t.get("corrupt"):
+                    elif not t.get("corrupt") and not ev.get("aborted"):
                         if after is not None and after.get(ev["peer"]) != t["pident"]:
                             bad.append(("autotrust_did_not_replace", "account %d: pkmsg of %d" % (idx, ev["peer"])))
                         if not delivered and t.get("pkok", True) and not t.get("dupseen"):
@@ -412,8 +426,40 @@ def kill_cases():
     return cs
 
 
+def fault_cases():
+    """Directed, always run: a pinned contact reinstalls (other identity); the operation that brings its new identity
+    to the account runs while the account's lookups on the identities table fail (the k-th and the n-1 following of
+    the operation raise 'database is locked'); afterwards, table readable again, the same identity comes once more by
+    the same way, the account restarts, and the contact's first message arrives.  A storage fault during the trust
+    decision must never turn into trust.  With auto-trust on (k = 1: nothing written before the faulted lookup) the new
+    key comes in only afterwards, by the documented path."""
+    cs = []
+    for auto in (False, True):
+        for k in ((1, 2) if not auto else (1,)):
+            for n in ((1, 2, 3, 4, 10) if k == 1 else (1, 3)):
+                f = ["fault", 0, k, n]
+                tag = "%s-k%d-n%d" % (auto, k, n)
+                # bundle fetched again after an identity-change notification
+                cs.append({"name": "fault-notify-" + tag, "n": 2, "autotrust": [auto, False],
+                           "ops": [["send", 0, 1], ["send", 1, 0], ["reinstall", 1], f, ["notify", 0, 1],
+                                   ["notify", 0, 1], ["restart", 0], ["send", 1, 0]]})
+                # bundle fetched to serve the reinstalled contact's retry receipt
+                cs.append({"name": "fault-retry-" + tag, "n": 2, "autotrust": [auto, False],
+                           "ops": [["send", 0, 1], ["send", 1, 0], ["reinstall", 1], f, ["send", 0, 1],
+                                   ["send", 0, 1], ["restart", 0], ["send", 1, 0]]})
+                # explicit first send: pin without a session (a first message saved the identity and then failed)
+                cs.append({"name": "fault-first-send-" + tag, "n": 2, "autotrust": [auto, False],
+                           "ops": [["send", 1, 0, "x", "hold"], ["reinstall", 0], ["reinstall", 1], f,
+                                   ["send", 0, 1, "x"], ["send", 0, 1, "x"], ["restart", 0], ["send", 1, 0, "x"]]})
+                # the reinstalled contact's first message
+                cs.append({"name": "fault-pkmsg-" + tag, "n": 2, "autotrust": [auto, False],
+                           "ops": [["send", 0, 1], ["send", 1, 0], ["reinstall", 1], f, ["send", 1, 0],
+                                   ["send", 1, 0], ["restart", 0], ["send", 0, 1]]})
+    return cs
+
+
 def scripted_cases():
-    cs = kill_cases()
+    cs = fault_cases() + kill_cases()
     for auto in (False, True):
         # --- the pin must be durable whichever path saved it (seeded defect C17-2: saveIdentity without commit) ---
         # (a) the identity is first learnt from the bundle fetched after an identity-change notification (nothing is
@@ -584,6 +630,14 @@ def random_case(rng, tier):
             ops.insert(k, ["kill", who, rng.randrange(6) if rng.random() < .7 else rng.randrange(12)])
             k += 1
         k += 1
+    # read faults: the next op runs while the lookups on one party's identities table fail
+    k = 0
+    while k < len(ops):
+        if ops[k][0] in ("send", "notify") and (k == 0 or ops[k - 1][0] not in ("kill", "fault")) and rng.random() < .08:
+            who = rng.choice([ops[k][1], ops[k][2]]) if ops[k][0] == "send" else ops[k][1]
+            ops.insert(k, ["fault", who, 1 if auto[who] else rng.choice([1, 1, 2]), rng.choice([1, 2, 3, 4, 10])])
+            k += 1
+        k += 1
     ops = legalise(ops, n)
     return {"name": "random", "n": n, "autotrust": auto, "ops": ops, "reorder": rng.random() < .5,
             "sched_seed": rng.randrange(1 << 30), "pad_seed": rng.randrange(1 << 30)}
@@ -672,7 +726,7 @@ def run(ctx):
         if key not in distinct:
             distinct.add(key)
             kinds = set(o[0] for o in case["ops"])
-            if ("reinstall" in kinds or "clone" in kinds or "kill" in kinds) and ("send" in kinds or "notify" in kinds):
+            if ("reinstall" in kinds or "clone" in kinds or "kill" in kinds or "fault" in kinds) and ("send" in kinds or "notify" in kinds):
                 nontrivial += 1
         if found:
             kinds = set(k for k, _, _ in found)
